@@ -237,6 +237,22 @@ def run(tier, seed):
     time.tzset()
     realclock.boundary_crossed_while_running(chk)
     chk.sample({"subject": "packed chain", "boundaries": "leaf/intermediate/root notBefore/notAfter +-3 s", "rule": "accepted iff notBefore <= now < notAfter for every certificate"})
+    # 3a'. every catalogue entry about a certificate outside its validity period (alone, and together with whatever else is wrong or remarkable about the chain: unrecognised
+    #      extensions, a path-length violation, a re-dated copy of the root inside x5c, remarkable dates on other certificates, an AKI without key identifier)
+    from harness import authcat
+    timed = [n for n in regcat.CHAIN_FAULTS if any(w in n for w in ("expired", "not-yet-valid", "valid-until", "valid-since", "redated"))]
+    for fmt in ("packed", "tpm", "apple", "android-key", "android-safetynet", "fido-u2f"):
+        for name in timed:
+            if fmt == "fido-u2f" and ("intermediate" in name or name in regcat.MULTI_CERT_FAULTS):
+                continue
+            while True:
+                s = regsim.RScn(fmt, "ES256-P256")
+                s.n_inter = 0 if fmt == "fido-u2f" else 1
+                authcat.apply(regcat.CHAIN_FAULTS, name, s, scope=f"c17:{fmt}:")
+                pd, reg = regsim.build(s)
+                B.run_case(regrun.policy_of(pd), reg, "dict", "reject", f"{name}/{fmt}", scn=s)
+                if not authcat.variants_left(name, scope=f"c17:{fmt}:", cap=4):
+                    break
     # 3b. the attestation certificate itself configured as an anchor (alone, or next to its issuer): its own validity still counts
     for fmt in ("packed", "tpm", "fido-u2f", "apple"):
         for mode in ("pin-leaf-and-root", "pin-leaf"):
